@@ -276,7 +276,7 @@ def check_sections(cls, paras):
 
 def section_docs(cls, max_len=5):
     H = HEAD_TEXT[cls]
-    pool = [("h1", H["h1"]), ("h2", H["h2"]), ("p", None), ("p", "")]
+    pool = [("h1", H["h1"]), ("h2", H["h2"]), ("p", None), ("p", ""), ("p", "same line")]
     if cls != "DocContent":
         pool.append(("h1", ""))
     for n in range(0, max_len + 1):
@@ -431,13 +431,15 @@ def pptx_doc(slide_texts):
     buf = io.BytesIO()
     with zipfile.ZipFile(buf, "w") as z:
         z.writestr("[Content_Types].xml", '<?xml version="1.0"?><Types xmlns="http://schemas.openxmlformats.org/package/2006/content-types"/>')
-        ids = "".join(f'<p:sldId id="{256 + i}" r:id="rId{i + 1}"/>' for i in range(len(slide_texts)))
+        n = len(slide_texts)
+        part = lambda i: n - i          # slide in show position i+1 is stored as part slide<n-i>.xml (decks get re-arranged)
+        ids = "".join(f'<p:sldId id="{300 - i}" r:id="rId{i + 1}"/>' for i in range(n))
         z.writestr("ppt/presentation.xml",
                    '<?xml version="1.0"?><p:presentation xmlns:p="http://schemas.openxmlformats.org/presentationml/2006/main" '
                    'xmlns:r="http://schemas.openxmlformats.org/officeDocument/2006/relationships"><p:sldIdLst>' + ids + '</p:sldIdLst></p:presentation>')
         # relationships deliberately listed in reverse order: the order must come from sldIdLst
         rels = "".join(f'<Relationship Id="rId{i + 1}" Type="http://schemas.openxmlformats.org/officeDocument/2006/relationships/slide" '
-                       f'Target="slides/slide{i + 1}.xml"/>' for i in reversed(range(len(slide_texts))))
+                       f'Target="slides/slide{part(i)}.xml"/>' for i in reversed(range(len(slide_texts))))
         z.writestr("ppt/_rels/presentation.xml.rels",
                    '<?xml version="1.0"?><Relationships xmlns="http://schemas.openxmlformats.org/package/2006/relationships">' + rels + '</Relationships>')
         for i, t in enumerate(slide_texts):
@@ -445,8 +447,9 @@ def pptx_doc(slide_texts):
             if t is not None:
                 sp = ('<p:sp><p:nvSpPr><p:cNvPr id="2" name="tb"/><p:cNvSpPr/><p:nvPr/></p:nvSpPr><p:spPr/>'
                       f'<p:txBody><a:bodyPr/><a:p><a:r><a:t>{t}</a:t></a:r></a:p></p:txBody></p:sp>')
-            z.writestr(f"ppt/slides/slide{i + 1}.xml",
-                       '<?xml version="1.0"?><p:sld xmlns:p="http://schemas.openxmlformats.org/presentationml/2006/main" '
+            hidden = ' show="0"' if t == "Hidden" else ""
+            z.writestr(f"ppt/slides/slide{part(i)}.xml",
+                       f'<?xml version="1.0"?><p:sld{hidden} xmlns:p="http://schemas.openxmlformats.org/presentationml/2006/main" '
                        'xmlns:a="http://schemas.openxmlformats.org/drawingml/2006/main"><p:cSld><p:spTree>'
                        '<p:nvGrpSpPr><p:cNvPr id="1" name=""/><p:cNvGrpSpPr/><p:nvPr/></p:nvGrpSpPr><p:grpSpPr/>' + sp +
                        '</p:spTree></p:cSld></p:sld>')
@@ -473,7 +476,7 @@ def check_pptx(slide_texts):
 
 
 def sweep_pptx():
-    pool = ["Alpha", None, "Beta"]
+    pool = ["Alpha", None, "Beta", "Hidden"]
     for n in range(0, 4):
         for st in itertools.product(pool, repeat=n):
             r = check_pptx(list(st))
@@ -490,7 +493,7 @@ def odp_doc(slide_texts):
     pages = ""
     for i, t in enumerate(slide_texts):
         frame = "" if t is None else f'<draw:frame presentation:class="outline"><draw:text-box><text:p>{t}</text:p></draw:text-box></draw:frame>'
-        pages += f'<draw:page draw:name="p{i + 1}">{frame}</draw:page>'
+        pages += f'<draw:page draw:name="p{9 - i}">{frame}</draw:page>'      # names sort the other way round than the pages come
     with zipfile.ZipFile(buf, "w") as z:
         z.writestr("mimetype", "application/vnd.oasis.opendocument.presentation")
         z.writestr("content.xml", f'<?xml version="1.0"?><office:document-content {ns}><office:body><office:presentation>{pages}'
@@ -565,6 +568,79 @@ def sweep_epub():
             if r:
                 return r
     return None
+
+
+def xlsx_doc(sheets):
+    """sheets: [(name, [[cell,...],...])] in workbook order (names deliberately not sorted)."""
+    import openpyxl
+    wb = openpyxl.Workbook()
+    wb.remove(wb.active)
+    for name, rows in sheets:
+        ws = wb.create_sheet(name)
+        for r in rows:
+            ws.append(r)
+    buf = io.BytesIO()
+    wb.save(buf)
+    return buf.getvalue()
+
+
+SHEET_NAMES = ["Zeta", "Alpha", "Mid"]
+
+
+def _sheet_specs(kinds):
+    out = []
+    for i, k in enumerate(kinds):
+        out.append((SHEET_NAMES[i], [] if k == "empty" else [["h", "v"], [f"cell{i}", i]]))
+    return out
+
+
+def check_sheets(fmt, kinds):
+    sheets = _sheet_specs(kinds)
+    if fmt == "xlsx":
+        from sharepoint2text.parsing.extractors.ms_modern.xlsx_extractor import read_xlsx as reader
+        data = xlsx_doc(sheets)
+    else:
+        from sharepoint2text.parsing.extractors.open_office.ods_extractor import read_ods as reader
+        data = ods_doc(sheets)
+    c = next(reader(io.BytesIO(data)))
+    us = list(c.iterate_units())
+    obs = [(u.get_metadata().unit_number, u.get_metadata().sheet_name, u.get_text()) for u in us]
+    ok = [(n, nm) for n, nm, _t in obs] == [(k, nm) for k, (nm, _r) in enumerate(sheets, start=1)] \
+        and all((f"cell{i}" in t) == bool(rows) for i, ((_n, _nm, t), (_s, rows)) in enumerate(zip(obs, sheets))) \
+        and c.get_full_text() == "\n".join(t for _n, _nm, t in obs).strip()
+    if not ok:
+        return {"target": f"{fmt}_extractor.py::read_{fmt}", "inputs": {"check": "sheets", "format": fmt, "sheet_kinds": list(kinds), "sheet_names": SHEET_NAMES[:len(kinds)]},
+                "expected": "one unit per sheet in workbook order, numbered 1..n, carrying that sheet's name and cells; full text == joined unit texts",
+                "observed": repr(obs)[:400], "check": "sheets"}
+    return None
+
+
+def sweep_sheets(fmt):
+    for n in range(1, 4):
+        for kinds in itertools.product(["data", "empty"], repeat=n):
+            r = check_sheets(fmt, list(kinds))
+            if r:
+                return r
+    return None
+
+
+def ods_doc(sheets):
+    ns = ('xmlns:office="urn:oasis:names:tc:opendocument:xmlns:office:1.0" xmlns:table="urn:oasis:names:tc:opendocument:xmlns:table:1.0" '
+          'xmlns:text="urn:oasis:names:tc:opendocument:xmlns:text:1.0" xmlns:draw="urn:oasis:names:tc:opendocument:xmlns:drawing:1.0" '
+          'xmlns:xlink="http://www.w3.org/1999/xlink" xmlns:svg="urn:oasis:names:tc:opendocument:xmlns:svg-compatible:1.0"')
+    tabs = ""
+    for name, rows in sheets:
+        body = "".join("<table:table-row>" + "".join(f'<table:table-cell office:value-type="string"><text:p>{c}</text:p></table:table-cell>' for c in r)
+                       + "</table:table-row>" for r in rows)
+        tabs += f'<table:table table:name="{name}">{body}</table:table>'
+    buf = io.BytesIO()
+    with zipfile.ZipFile(buf, "w") as z:
+        z.writestr("mimetype", "application/vnd.oasis.opendocument.spreadsheet")
+        z.writestr("content.xml", f'<?xml version="1.0"?><office:document-content {ns}><office:body><office:spreadsheet>{tabs}'
+                                  '</office:spreadsheet></office:body></office:document-content>')
+        z.writestr("meta.xml", f'<?xml version="1.0"?><office:document-meta {ns}><office:meta/></office:document-meta>')
+        z.writestr("META-INF/manifest.xml", '<?xml version="1.0"?><manifest:manifest xmlns:manifest="urn:oasis:names:tc:opendocument:xmlns:manifest:1.0"/>')
+    return buf.getvalue()
 
 
 def check_pdf(n_pages):
@@ -669,6 +745,10 @@ def sweeps_for(target):
         out.append(("epub", sweep_epub))
     if "pdf_extractor" in t:
         out.append(("pdf", sweep_pdf))
+    if "xlsx_extractor" in t:
+        out.append(("xlsx", lambda: sweep_sheets("xlsx")))
+    if "ods_extractor" in t:
+        out.append(("ods", lambda: sweep_sheets("ods")))
     if "mbox" in t:
         out.append(("mbox", sweep_mbox))
     return out
@@ -682,13 +762,23 @@ def all_sweeps():
         out.append(("single:" + cls, lambda cls=cls: sweep_single(cls)))
     for cls in ("DocContent", "DocxContent", "OdtContent"):
         out.append(("heading:" + cls, lambda cls=cls: sweep_heading(cls)))
-        out.append(("sections:" + cls, lambda cls=cls: sweep_sections(cls, collect=True) or None))
+        out.append(("sections:" + cls, lambda cls=cls: sweep_sections(cls, exclude=_recorded(cls))))
     out += [("join", sweep_join), ("ppt_build", sweep_ppt_build), ("ppt_parse", sweep_ppt_parse), ("ppt_fixture", check_ppt_fixture),
-            ("rtf", sweep_rtf), ("pptx", sweep_pptx), ("odp", sweep_odp), ("epub", sweep_epub), ("pdf", sweep_pdf), ("mbox", sweep_mbox)]
+            ("rtf", sweep_rtf), ("pptx", sweep_pptx), ("odp", sweep_odp), ("epub", sweep_epub), ("pdf", sweep_pdf), ("mbox", sweep_mbox),
+            ("xlsx", lambda: sweep_sheets("xlsx")), ("ods", lambda: sweep_sheets("ods"))]
     return out
 
 
 EXCLUDE = {}      # class -> features excluded by recorded findings (filled from the request)
+
+
+def _recorded(cls):
+    import json
+    try:
+        kf = json.load(open(os.path.join(os.path.dirname(os.path.dirname(os.path.abspath(__file__))), "known_findings.json")))["findings"]
+    except (OSError, ValueError, KeyError):
+        return ()
+    return sorted({x for f in kf if f.get("property") == "C03" and f.get("class") == cls for x in f.get("exclusion", [])})
 
 
 def find(req):
@@ -725,6 +815,8 @@ def rerun(stored):
         r = check_single(inp["class"], inp["text"], inp.get("html", ""))
     elif chk == "join":
         r = check_join(inp["unit_texts"])
+    elif chk == "sheets":
+        r = check_sheets(inp["format"], inp["sheet_kinds"])
     elif chk == "sections":
         r = check_sections(inp["class"], inp["paragraphs"])
     elif chk == "heading":
